@@ -217,3 +217,39 @@ Print Assumptions set_z0_vector_alias_refuted.
 Theorem convert_rows_in_use_refuted : exists ops f, zhistory ZRowsInUse ops (start None) = Fault f.
 Proof. exact convert_rows_in_use_refuted_lemma. Qed.
 Print Assumptions convert_rows_in_use_refuted.
+
+(* ---------------------------------------------------------------- the vnacal_new_t allocation skeleton (Mem/NewAlloc.v) *)
+Require Import LV.Mem.NewAlloc LV.Mem.NewAllocProofs.
+
+(* vnacal_new_set_m_error (allocate once, overwrite, clear with NULL NULL, the spline temporaries), on a vnacal_new_t in
+   any state, beside any other live blocks F, for every argument class and every fault point: the call completes, and
+   afterwards the ledger is again exactly the blocks the structure (and the parameters) refer to - nothing freed twice,
+   nothing used after free, nothing orphaned.
+   PARTIAL: the same statement for vnacal_new_alloc, the add functions, vnacal_new_solve and vnacal_new_free, and the
+   no-fault / no-leak theorems over whole histories ([whistory]) are not proved; model and library are compared on
+   generated histories instead (lib/mem_tie.py run_new_tie). *)
+Theorem new_merr_no_fault_partial : forall F v ps a s, Post F v ps s ->
+  exists v' o s', set_m_error NFixed v a s = Ok ((v', o), s') /\ Post F v' ps s'.
+Proof. exact new_merr_fault_clean_lemma. Qed.
+Print Assumptions new_merr_no_fault_partial.
+
+Theorem new_post_satisfiable : exists v ps s, Post [] v ps s /\ vn_merr v <> None /\ length (live s) = 6%nat.
+Proof. exact NewAllocProofs.new_post_satisfiable. Qed.
+Print Assumptions new_post_satisfiable.
+
+(* bug shape of the seeded change C03-9 (the clear branch frees the vector through a copy of the pointer and leaves
+   vn_m_error_vector set): set, clear, set again writes into the freed vector; the tree's code runs the same history *)
+Theorem new_merr_clear_dangling_refuted :
+  exists ops, whistory NClearDangling [KScalar; KScalar; KScalar] ops (start None) = Fault UseAfterFree /\
+              exists r, whistory NFixed [KScalar; KScalar; KScalar] ops (start None) = Ok r.
+Proof. exact new_merr_clear_dangling_refuted_lemma. Qed.
+Print Assumptions new_merr_clear_dangling_refuted.
+
+(* vnacal_new_free of a complete or partly built vnacal_new_t (the error exits of vnacal_new_alloc call it on a structure
+   without bucket array), in any state, beside any other live blocks F: no double free, no use after free, and afterwards
+   the ledger holds exactly the solved vectors of the parameters and F - every block the structure referred to is gone.
+   [LI own s]: the multiset [own] equals the ledger of [s]. *)
+Theorem new_free_no_fault_no_leak_partial : forall F v ps s, LI (vown v ++ psown ps ++ F) s -> (vn_tab v = None -> vn_nodes v = []) ->
+  exists ps' s', new_free v ps s = Ok (ps', s') /\ LI (psown ps' ++ F) s' /\ length ps' = length ps.
+Proof. exact new_free_clean_lemma. Qed.
+Print Assumptions new_free_no_fault_no_leak_partial.
